@@ -824,9 +824,10 @@ class eval_abs(object):
 
 
             if total_bit in tab_uintsize:
-                return self.eval_expr(ExprCond(mycond,
-                                               ExprInt(tab_uintsize[total_bit](mysrc1)),
-                                               ExprInt(tab_uintsize[total_bit](mysrc2))), eval_cache)
+                # (mycond is already evaluated)
+                return ExprCond(mycond,
+                                ExprInt(tab_uintsize[total_bit](mysrc1)),
+                                ExprInt(tab_uintsize[total_bit](mysrc2)))
             else:
                 # no integer type of that width: keep the pieces
                 return ExprCompose([(a, start, stop) for a, start, stop in args])
